@@ -140,6 +140,10 @@ pub fn oracle_c01(_scn: &Scenario, t: &Trace, st: &mut ExploreStats) -> Vec<Viol
             if lines.is_empty() {
                 continue;
             }
+            // byte-identical requests (of any caller) are judged as a group further down
+            if t.ops.iter().flatten().filter(|o| op_lines(&o.op) == lines).count() > 1 {
+                continue;
+            }
             let found = find_record(t, &lines);
             if found.len() > 1 {
                 out.push(Violation::new("C01/request-sent-twice", format!("caller {ci} op {oi} {:?} reached the server {} times", rec.op, found.len()), Value::Null));
@@ -204,6 +208,61 @@ pub fn oracle_c01(_scn: &Scenario, t: &Trace, st: &mut ExploreStats) -> Vec<Viol
             }
         }
     }
+    // groups of byte-identical requests: every one of them reaches the server (a request is an
+    // action, not a query to be answered from someone else's reply), and the callers' results are
+    // the replies to distinct executions
+    let mut seen_groups: Vec<Vec<Vec<u8>>> = Vec::new();
+    for rec0 in t.ops.iter().flatten() {
+        let lines = op_lines(&rec0.op);
+        if lines.is_empty() || seen_groups.contains(&lines) {
+            continue;
+        }
+        let group: Vec<&OpRecord> = t.ops.iter().flatten().filter(|o| op_lines(&o.op) == lines).collect();
+        if group.len() < 2 {
+            continue;
+        }
+        seen_groups.push(lines.clone());
+        st.count("identical_request_groups");
+        let records = find_record(t, &lines);
+        let issued = group.iter().filter(|r| r.issued_step.is_some()).count();
+        let must_reach = group.iter().filter(|r| r.issued_step.is_some() && !r.cancelled).count();
+        if records.len() > issued {
+            out.push(Violation::new("C01/request-sent-twice", format!("{issued} identical requests {:?} were issued but the server executed {}", group[0].op, records.len()), Value::Null));
+        }
+        if healthy && records.len() < must_reach {
+            out.push(Violation::new("C01/identical-request-not-sent", format!("{must_reach} identical requests {:?} were issued (and not cancelled) but only {} reached the server", group[0].op, records.len()), Value::Null));
+        }
+        // injective matching of results to executions
+        let mut free: Vec<Option<OpOutcome>> = records
+            .iter()
+            .map(|(_, r)| expected_outcome(&group[0].op, &t.s2c[r.reply_start.min(t.s2c.len())..r.reply_end.min(t.s2c.len())]).ok())
+            .collect();
+        for r in &group {
+            if r.issued_step.is_none() || r.cancelled {
+                continue;
+            }
+            match &r.outcome {
+                None => {
+                    if healthy {
+                        out.push(Violation::new("C01/request-never-resolves", format!("one of the identical requests {:?} is still pending after drain", r.op), Value::Null));
+                    }
+                }
+                Some(got) => {
+                    if !(healthy || got.is_ok()) {
+                        continue;
+                    }
+                    match free.iter().position(|f| f.as_ref() == Some(got)) {
+                        Some(i) => free[i] = None,
+                        None => out.push(Violation::new(
+                            "C01/wrong-reply",
+                            format!("one of the identical requests {:?} resolved with {}, which is not the reply to an execution of its own (another caller's reply shared, or no execution at all)", r.op, got.short()),
+                            Value::Null,
+                        )),
+                    }
+                }
+            }
+        }
+    }
     // vacuity counters: did a request arrive while an idle reply was partly delivered?
     let mut partial_idle_then_issue = false;
     let mut saw_partial = false;
@@ -263,8 +322,14 @@ pub fn oracle_c04(scn: &Scenario, t: &Trace, st: &mut ExploreStats) -> Vec<Viola
     let live = t.fault.is_none();
     let equal = got == want;
     if live && want.len() != want_all.len() {
-        // a healthy run ends with everything delivered and read
-        machinery_error(&format!("C04: a fault-free execution ended with unread idle replies (choices {:?})", t.choice_names()));
+        // a healthy run ends with everything delivered and read: a client that has stopped reading
+        // although nothing happened to the connection has lost the changes still on their way
+        out.push(Violation::new(
+            "C04/client-stopped-reading",
+            format!("nothing happened to the connection, yet after the drain {} of the {} reported changes lie in idle replies the client has not read (choices {:?})", want_all.len() - want.len(), want_all.len(), t.choice_names()),
+            Value::Null,
+        ));
+        return out;
     }
     if !prefix_ok || got.len() > want_all.len() || !equal {
         // classify
@@ -689,10 +754,75 @@ pub fn micro_fault(tier: Tier) -> Scenario {
     s
 }
 
+/// faults around a caller that gives up (its error has no recipient: still at most one closing event)
+pub fn s4c(_tier: Tier) -> Scenario {
+    let mut s = Scenario::new("S4c-faults-and-cancellation", vec![caller(vec![Op::Raw("cmd A1".into())]), CallerProg { ops: vec![Op::Raw("cmd B1".into()), Op::Raw("cmd B2".into())], pipeline: true }]);
+    s.cancel_budget = 1;
+    s.split_budget = 1;
+    s.faults = vec![FaultKind::Close, FaultKind::ReadErr, FaultKind::Garbage];
+    s.fault_budget = 1;
+    s.late_probe = true;
+    s
+}
+
+/// a server that refuses `idle` (restricted default permissions, nobody authenticated): from the
+/// client's point of view the session ends there; nothing may hang
+pub fn idle_refused(_tier: Tier) -> Scenario {
+    let mut s = Scenario::new("server-refuses-idle", vec![caller(vec![Op::Raw("cmd A1".into()), Op::Raw("cmd A2".into())]), caller(vec![Op::Raw("cmd B1".into())])]);
+    s.server.password = Some("secret".into());
+    s.split_budget = 1;
+    s.split_menu = SplitMenu::Bytes;
+    s.long_tick_budget = 0;
+    s
+}
+
+/// judge of `idle_refused`: every request resolves, none with a reply it cannot have, the client
+/// reports itself closed and the event stream ends after at most one closing event
+pub fn oracle_idle_refused(_scn: &Scenario, t: &Trace, st: &mut ExploreStats) -> Vec<Violation> {
+    let mut out = Vec::new();
+    let choices = t.choice_names();
+    st.count("idle_refused_sessions");
+    for (ci, ops) in t.ops.iter().enumerate() {
+        for (oi, rec) in ops.iter().enumerate() {
+            if rec.issued_step.is_none() || rec.cancelled {
+                continue;
+            }
+            match &rec.outcome {
+                None => out.push(Violation::new("C08/request-hangs", format!("caller {ci} op {oi} {:?} never resolved after the server refused idle (choices {choices:?})", rec.op), Value::Null)),
+                Some(o) if o.is_ok() => {
+                    if find_record(t, &op_lines(&rec.op)).is_empty() {
+                        out.push(Violation::new("C01/reply-without-request", format!("caller {ci} op {oi} resolved with {} although its request never reached the server", o.short()), Value::Null));
+                    }
+                }
+                _ => {}
+            }
+        }
+    }
+    if t.events.iter().filter(|e| e.text.starts_with("closed:")).count() > 1 {
+        out.push(Violation::new("C08/several-closing-events", "more than one ConnectionClosed event".to_string(), Value::Null));
+    }
+    for v in &t.server.violations {
+        out.push(Violation::new("C05/line-during-idle", format!("{v} (choices {choices:?})"), Value::Null));
+    }
+    out
+}
+
 pub fn s5(_tier: Tier) -> Scenario {
     let mut s = Scenario::new(
         "S5-three-callers",
         vec![caller(vec![Op::Raw("cmd A1".into())]), caller(vec![Op::RawList(vec!["cmd B1a".into(), "cmd B1b".into()])]), caller(vec![Op::Raw("partialfail C1".into()), Op::RawList(vec!["cmd C2a".into(), "fail C2b".into()])])],
+    );
+    s.notify_names = vec!["player"];
+    s.notify_budget = 1;
+    s.split_budget = 1;
+    s
+}
+
+/// byte-identical requests with a side effect from two handles, queued behind each other
+pub fn s6(_tier: Tier) -> Scenario {
+    let mut s = Scenario::new(
+        "S6-identical-requests",
+        vec![CallerProg { ops: vec![Op::Raw("count next".into()), Op::Raw("count next".into())], pipeline: true }, caller(vec![Op::Raw("count next".into())]), caller(vec![Op::Raw("cmd C1".into())])],
     );
     s.notify_names = vec!["player"];
     s.notify_budget = 1;
@@ -706,6 +836,9 @@ pub fn micro_stall(_tier: Tier) -> Scenario {
     s.notify_budget = 1;
     s.split_budget = 0;
     s.stall_budget = 1;
+    // time may pass while a write is stalled (a timeout around a send must not cut a line in two)
+    s.tick_anywhere = true;
+    s.loose_tick_budget = 2;
     s
 }
 
@@ -824,6 +957,7 @@ pub fn run_plans(ctx: &Ctx, plans: Vec<Plan>, oracle: &Oracle, wall_cap: Duratio
     cov.set("scenarios", Value::Array(per_scenario));
     cov.set("state_meaning", json!("states = distinct harness-visible states (server idle flag, pending changes, bytes in flight, last client line, caller status vector, events seen, fault flags), summed over scenarios; transitions = harness events executed on the real client; every execution is a trace of the implementation"));
     cov.set("tier", json!(ctx.tier.as_str()));
+    cov.set("select_poll_order", json!(format!("{:?}, {} branches (calibrated)", poll_order_mode(), SELECT_BRANCHES.load(std::sync::atomic::Ordering::Relaxed))));
     (cov, viol)
 }
 
@@ -832,7 +966,7 @@ pub fn find_scenario_any(name: &str) -> Option<Scenario> {
 }
 
 fn find_scenario(name: &str, tier: Tier) -> Option<Scenario> {
-    let mut all = vec![s1(tier), s1p(tier), s2(tier), s3(tier), micro(tier), micro2(tier), s4(tier), micro_fault(tier), s5(tier), micro_ticks(tier), micro_stall(tier), micro_cancel(tier)];
+    let mut all = vec![s1(tier), s1p(tier), s2(tier), s3(tier), micro(tier), micro2(tier), s4(tier), micro_fault(tier), s5(tier), micro_ticks(tier), micro_stall(tier), micro_cancel(tier), s6(tier), s4c(tier), idle_refused(tier)];
     for base in [micro(Tier::Quick), micro2(Tier::Quick)] {
         let mut e = base.clone();
         e.split_menu = SplitMenu::Lines;
@@ -863,7 +997,16 @@ pub fn replay(id: &str, case: &Value) -> i32 {
         find_scenario(name, *t).filter(|s| s.to_json() == case["scenario"])
     });
     let storm = [Tier::Quick, Tier::Thorough].iter().flat_map(|t| storm_variants(*t)).map(|(v, c, r)| storm_scenario(v, c, r).0).find(|s| s.name == name && s.to_json()["notify_budget"] == case["scenario"]["notify_budget"]);
-    let Some(scn) = scn.or(storm).or_else(|| find_scenario(name, Tier::Thorough)) else {
+    let c08_storm = if name == "C08-storm-then-read-error" {
+        let (mut scn, _) = storm_scenario("names-in-order", 90, false);
+        scn.name = name.to_string();
+        scn.faults = vec![FaultKind::ReadErr];
+        scn.fault_budget = 1;
+        Some(scn)
+    } else {
+        None
+    };
+    let Some(scn) = scn.or(storm).or(c08_storm).or_else(|| find_scenario(name, Tier::Thorough)) else {
         println!("replay: unknown scenario {name}");
         return 2;
     };
@@ -872,6 +1015,7 @@ pub fn replay(id: &str, case: &Value) -> i32 {
         "C01" => &oracle_c01,
         "C04" => &oracle_c04,
         "C05" => &oracle_c05,
+        "C08" | "C05" if scn.name == "server-refuses-idle" => &oracle_idle_refused,
         "C08" => &oracle_c08,
         _ => return 2,
     };
@@ -896,6 +1040,7 @@ pub fn run_c01(tier: Tier) -> i32 {
         Plan { scn: micro_stall(tier), bound: tier.pick(4, 5) },
         Plan { scn: with_fresh_clones(s2(tier)), bound: tier.pick(3, 4) },
         Plan { scn: micro_cancel(tier), bound: tier.pick(4, 5) },
+        Plan { scn: s6(tier), bound: tier.pick(3, 4) },
     ];
     let (cov, viol) = run_plans(
         &ctx,
@@ -1131,6 +1276,15 @@ pub fn run_c05(tier: Tier) -> i32 {
     cov.set("eager_vs_lazy_server", lazy_report);
     viol.merge(lazy_viol);
     run_never_polled_storms(tier, &oracle_c05, &mut cov, &mut viol);
+    // a server that refuses `idle`: whatever the client does next must be legal and must not hang
+    {
+        let far = Budget { max_executions: u64::MAX, deadline: Instant::now() + Duration::from_secs(3600) };
+        let st = explore(&idle_refused(tier), tier.pick(4, 5), &oracle_idle_refused, &far);
+        cov.evaluations += st.executions;
+        cov.transitions += st.transitions;
+        cov.set("server_refuses_idle", json!({"executions": st.executions, "deviation_bound": tier.pick(4, 5)}));
+        viol.merge(st.viol);
+    }
     finish(&ctx, cov, viol)
 }
 
@@ -1142,6 +1296,7 @@ pub fn run_c08(tier: Tier) -> i32 {
         Plan { scn: micro_fault(tier), bound: 99 },
         Plan { scn: s4(tier), bound: tier.pick(3, 4) },
         Plan { scn: with_dropped_events(s4(tier)), bound: tier.pick(2, 3) },
+        Plan { scn: s4c(tier), bound: tier.pick(3, 4) },
     ];
     let (cov, viol) = run_plans(
         &ctx,
@@ -1151,5 +1306,40 @@ pub fn run_c08(tier: Tier) -> i32 {
         "every schedule within the deviation bound x one fault of each kind at every step (Close at every line boundary / byte offset of the bytes in flight); non-trivial = executions in which the client ran into the fault (clean and unclean ends)",
         &["unclean_ends", "clean_ends"],
     );
+    let (mut cov, mut viol) = (cov, viol);
+    // a session that ends because the server refuses `idle`
+    {
+        let far = Budget { max_executions: u64::MAX, deadline: Instant::now() + Duration::from_secs(3600) };
+        let st = explore(&idle_refused(tier), tier.pick(4, 5), &oracle_idle_refused, &far);
+        cov.evaluations += st.executions;
+        cov.transitions += st.transitions;
+        cov.states += st.states.len() as u64;
+        cov.distinct_nontrivial += st.executions;
+        cov.set("server_refuses_idle", json!({"executions": st.executions, "deviation_bound": tier.pick(4, 5), "events_executed": st.transitions}));
+        viol.merge(st.viol);
+    }
+    // a failure after many changes nobody has collected yet: the closing event must still arrive
+    {
+        let (mut scn, mut script) = storm_scenario("names-in-order", 90, false);
+        scn.name = "C08-storm-then-read-error".into();
+        scn.faults = vec![FaultKind::ReadErr];
+        scn.fault_budget = 1;
+        script.push("ReadErr".into());
+        let mut chooser = NameChooser { names: script, cursor: 0, repeats: 0 };
+        let t = run_once(&scn, &mut chooser).unwrap_or_else(|e| machinery_error(&format!("C08 storm: {e}")));
+        let mut st = ExploreStats::default();
+        for mut v in oracle_c08(&scn, &t, &mut st) {
+            v.case = t.case_json(&scn);
+            viol.push(v);
+        }
+        if !t.events.iter().any(|e| e.text.starts_with("closed:")) {
+            let mut v = Violation::new("C08/failure-not-surfaced", format!("a read error while idling after {} uncollected changes: no closing event among the {} events the application then collects", t.server.changed.len(), t.events.len()), Value::Null);
+            v.case = t.case_json(&scn);
+            viol.push(v);
+        }
+        cov.evaluations += 1;
+        cov.transitions += t.points.len() as u64;
+        cov.set("storm_then_fault", json!({"changes": t.server.changed.len(), "events_collected": t.events.len()}));
+    }
     finish(&ctx, cov, viol)
 }
